@@ -205,7 +205,7 @@ def w_frame_values(acc, frame, L, prefix):
 
 
 def w_intrule(acc):
-    vals = [0, 7, 1999, 10**12, "0", "7", "1999", "007", "12a", "", "1-2", " 5", "٣", "²", "x", "{5}", "-3"]
+    vals = [0, 7, 1999, 10**12, "0", "7", "1999", "007", "12a", "", "1-2", " 5", "٣", "²", "x", "{5}", "-3", "½", "Ⅻ", "1_000", "+3", "1 2", "5\n", -44]
     for v, key, (d, r, e), inplace in itertools.product(vals, NUMERIC_FIELDS + OTHER_KEYS, OPTION_SETS, (True, False)):
         acc.run("intrule", o_intrule, {"value": v, "key": key, "default": d, "reuse": r, "enclose_integers": e, "inplace": inplace}, True)
     for v in ["", '"', "{", "}", "a", "{}", '""', '"{"}"', "{a} # {b}", '"a" # "b"', "{a", "a}", '{"}', '"}"', " {a} ", "{ a }"]:
